@@ -4,6 +4,7 @@ CONSTANTS
   MaxLen = 9
   MaxRun = 6
   MinRun = 5
+  EdRuns = TRUE
 INVARIANT EncTypeOK
 INVARIANT RoundTrip
 INVARIANT RoundTripV1
